@@ -53,6 +53,7 @@ LIMIT_MARKUP = ('<form><input id="a" type="month" min="' + HUGE_YEAR + '-01" val
 LIMIT_SELECTORS = [':in-range', ':out-of-range', 'input:not(:in-range)']
 # memo at capacity: soupsieve memoises lower-cased names (512 entries, never purged); eviction only happens when the memo
 # is full, so a warm-up through the public API fills it before operations that are guaranteed to miss it
+DEEP = 135          # nesting depth of the deep-compile pair (the interpreter's recursion limit leaves room for ~190 under the tracer)
 WARM_N = 560
 _warm = [False]
 _fresh = [0]
@@ -103,6 +104,14 @@ def make_op(op, private_docs):
                 sv.purge()
             return ('selectors', compile_(p).selectors)
         return f
+    if kind == 'compile-outcome':
+        # for very deep patterns: only whether it compiles (comparing 135-deep structures would itself exhaust the stack)
+        def g():
+            if op.get('purge', True):
+                sv.purge()
+            compile_(p)
+            return ('compiled', True)
+        return g
     if kind == 'purge':
         return lambda: ('purged', sv.purge())
     if kind == 'select-fresh':
@@ -201,7 +210,7 @@ def run_case(case, opcode=False):
     def outcome(p):
         try:
             return ('ok', compile_(p))
-        except sv.SelectorSyntaxError as e:
+        except (sv.SelectorSyntaxError, RecursionError) as e:
             return ('raise', type(e).__name__)
 
     for p in pats:
@@ -212,7 +221,7 @@ def run_case(case, opcode=False):
         except Exception as e:  # noqa: BLE001
             fails.append(('cache-check-raises-' + type(e).__name__, f'{p[:80]!r}: {e!r:.150}'))
             continue
-        if cached[0] != fresh[0] or (cached[0] == 'ok' and (cached[1].selectors != fresh[1].selectors or cached[1] != fresh[1])):
+        if cached[0] != fresh[0] or (cached[0] == 'ok' and len(p) < 300 and (cached[1].selectors != fresh[1].selectors or cached[1] != fresh[1])):
             fails.append(('poisoned-cache-entry', f'{p[:80]!r}: the entry left in the cache ({cached[0]}) differs from a fresh parse ({fresh[0]}); schedule {sc}'))
     settings_after = interpreter_settings()
     if settings_after != settings_before:
@@ -288,6 +297,34 @@ def run_single_preemptions(col, ctx, pool, opcode):
                         col.nontrivial_case(['single-limits', opa['op'], opa['p'][:20], opb['op'], opb['p'][:20], point], None)
                     for bkt, d in fails[:2]:
                         col.fail(bkt, case, d)
+    if complete:
+        # two compiles that are both deep inside nested functional pseudo-classes at the moment of the switch (anything
+        # the parser keeps per class or per module while it recurses adds up across threads); 64 evenly spread points
+        deep_a = ':is(' * DEEP + 'a' + ')' * DEEP
+        deep_b = 'b:not(' * DEEP + 'c' + ')' * DEEP
+        for pa, pb in ((deep_a, deep_b), (deep_b, deep_a)):
+            opa = {'op': 'compile-outcome', 'p': pa, 'purge': True}
+            opb = {'op': 'compile-outcome', 'p': pb, 'purge': True}
+            npts, _res = sched.count_yield_points(make_op(dict(opa, tid=0), [None]))
+            for j in range(64):
+                point = max(1, int(npts * (j + 0.5) / 64))
+                idx += 1
+                if idx % nsh != k:
+                    continue
+                if time.time() > ctx['t_end']:
+                    col.extra['budget_exhausted'] = 1
+                    complete = False
+                    break
+                case = {'threads': [[dict(opa)], [dict(opb)]], 'schedule': {'kind': 'single', 'point': point}, 'opcode': False}
+                fails, st = run_case(case, False)
+                col.count()
+                if st['switches'] >= 1:
+                    col.classify('single-deep-nesting')
+                    col.nontrivial_case(['single-deep', pa[:6], point], None)
+                for bkt, d in fails[:2]:
+                    col.fail(bkt, case, d)
+            if not complete:
+                break
     if complete:
         # both memos full, both threads guaranteed to miss them; opcode granularity inside util.py (the name memo)
         for ta, tb in (('a, [{fresh}]', 'p, [{fresh}]'), ('[{fresh}=x]', 'a, [{fresh}]')):
